@@ -116,8 +116,20 @@ def d1_d3(ctx, rep):
         while isinstance(t, ast.UnaryOp) and isinstance(t.op, ast.Not):
             t, neg = t.operand, not neg
         return t, neg
-    ifs = [n for n in ast.walk(loop) if isinstance(n, ast.If) and isinstance(strip_not(n.test)[0], ast.Compare) and len(strip_not(n.test)[0].ops) == 1
-           and isinstance(strip_not(n.test)[0].ops[0], (ast.Lt, ast.LtE, ast.Gt, ast.GtE))]
+    def is_order_cmp(t):
+        t = strip_not(t)[0]
+        return isinstance(t, ast.Compare) and len(t.ops) == 1 and isinstance(t.ops[0], (ast.Lt, ast.LtE, ast.Gt, ast.GtE))
+    # `best is None or score < best`: a None sentinel in place of +inf.  The first candidate is then accepted whatever its score,
+    # also a NaN one, and `x < nan` is false for every later candidate: the NaN candidate wins.  With +inf `nan < inf` is false.
+    for n in ast.walk(loop):
+        if isinstance(n, ast.If) and isinstance(n.test, ast.BoolOp) and isinstance(n.test.op, ast.Or):
+            from ..idioms import is_none_test
+            nones = [is_none_test(v) for v in n.test.values]
+            cmps = [v for v in n.test.values if is_order_cmp(v)]
+            if any(x is not None and x[1] for x in nones) and cmps:
+                rep.bad('D1.argmin', fn, n.test, f'`{short(n.test, 60)}`: the first candidate is accepted unconditionally (None sentinel), also with a NaN statistic, '
+                        'and no later candidate can displace a NaN: the selected model need not have the smallest KS statistic', construct='arg-min initial value')
+    ifs = [n for n in ast.walk(loop) if isinstance(n, ast.If) and is_order_cmp(n.test)]
     guard = None
     for i in ifs:
         cmp_, neg_ = strip_not(i.test)
